@@ -49,7 +49,7 @@ def run(chk):
         for k in range(n):
             items = printer.gen_items(chk.rng, allow_services=False)
             files = {}
-            mode = chk.rng.choice(["valid", "undeclared", "forward", "self", "via-module", "valid", "via-nested-modules", "module-uses-outside-type", "binding-name-as-type",
+            mode = chk.rng.choice(["valid", "undeclared", "forward", "self", "via-module", "valid", "via-nested-modules", "diamond", "module-uses-outside-type", "binding-name-as-type",
                                    "builtin-prefixed-name"])
             prefixed = None
             structs = [i for i, it in enumerate(items) if it[0] == "struct"]
@@ -111,6 +111,27 @@ def run(chk):
                 chk.rng.shuffle(imports)
                 items[0:0] = imports
                 mnames = [it[1] for it in a_items + b_items if it[0] in ("struct", "enum")] + (["API_S"] if api_fields else [])
+                cand = [i for i, it in enumerate(items) if it[0] == "struct"]
+                si, name = (chk.rng.choice(cand), chk.rng.choice(mnames)) if cand and mnames else (None, None)
+            elif mode == "diamond":
+                # main imports d/left.fcp and d/right.fcp, both import d/common.fcp and refer to its types: the shared module is merged once
+                # per import path.  Whatever the front end makes of the repeated declarations, a tree it accepts holds a declaration for
+                # every reference
+                c_items = printer.gen_items(chk.rng, prefix="DC_", allow_services=False)
+                cnames = [it[1] for it in c_items if it[0] in ("struct", "enum")]
+                def user(tag):
+                    flds = [{"name": f"r{j}", "id": j, "type": chk.rng.choice([("ref", nm), ("arr", ("ref", nm), 2), ("opt", ("ref", nm))]), "params": []}
+                            for j, nm in enumerate(chk.rng.sample(cnames, min(len(cnames), 2)))]
+                    return [("mod", ["common"])] + ([("struct", f"D{tag}_S", flds)] if flds else [])
+                files["d/common.fcp"] = printer.render(printer.tokens(c_items))
+                files["d/left.fcp"] = printer.render(printer.tokens(user("L")))
+                files["d/right.fcp"] = printer.render(printer.tokens(user("R")))
+                imports = [("mod", ["d", "left"]), ("mod", ["d", "right"])]
+                if chk.rng.random() < 0.3:
+                    imports.append(("mod", ["d", "common"]))
+                chk.rng.shuffle(imports)
+                items[0:0] = imports
+                mnames = list(cnames)
                 cand = [i for i, it in enumerate(items) if it[0] == "struct"]
                 si, name = (chk.rng.choice(cand), chk.rng.choice(mnames)) if cand and mnames else (None, None)
             elif mode == "builtin-prefixed-name" and structs:
